@@ -12,7 +12,21 @@
 //	          with no possibly-expiring GC pass in between, or expired by more
 //	          than 1 s before a GC pass of that quota;
 //	counter   the slot count the gateway itself exposes never exceeds max nor
-//	          the number of transactions that can legitimately hold a slot.
+//	          the number of transactions that can legitimately hold a slot;
+//	end       (engine level) once the gateway ITSELF has ended a transaction — it
+//	          processed its response, or it answered the request early — none of
+//	          its slots may remain ("given back when its response is processed,
+//	          when the gateway answers it early"), whichever quota came first in
+//	          its flow and whatever processors the gateway ran to get there.
+//	          Lenient where the text is: a transaction that outlived the expiry of
+//	          one of its own slots before it ended is left to the expiry rule, and
+//	          for a proxy-error report (the gateway learns a transaction id from
+//	          the proxy) only the chain of the first quota the transaction met is
+//	          demanded at once, the rest "at the latest when its expiry passes".
+//
+// Transactions are told apart by their TRANSACTION id only: the sequence id a
+// stream carries (client retries, parallel calls stamped alike) is not an
+// identity of a transaction and plays no role in any rule.
 package main
 
 import (
@@ -40,19 +54,27 @@ type gcTick struct {
 	t   int64
 }
 
+// endRec: the gateway itself ended the transaction at log index idx
+type endRec struct {
+	idx int
+	t   int64
+	how string
+}
+
 type mon struct {
 	k      *Cfg
 	acqs   map[int][]acq
 	rels   map[int][]rel
 	firstq map[int]int
 	gcs    map[int][]gcTick
+	ends   map[int][]endRec
 	txns   []int
 	seen   map[int]bool
 }
 
 func newMon(k *Cfg) *mon {
 	return &mon{k: k, acqs: map[int][]acq{}, rels: map[int][]rel{}, firstq: map[int]int{},
-		gcs: map[int][]gcTick{}, seen: map[int]bool{}}
+		gcs: map[int][]gcTick{}, ends: map[int][]endRec{}, seen: map[int]bool{}}
 }
 
 func (m *mon) note(r int) {
@@ -90,6 +112,27 @@ func (m *mon) certainlyFree(r, x, i int) (bool, string) {
 	for _, g := range m.gcs[x] {
 		if g.idx > last.idx && g.idx < i && g.t >= last.t+ttl+sec {
 			return true, "gc"
+		}
+	}
+	// the gateway itself ended the transaction after its last acquisition, and none
+	// of the slots it ever took can have expired by then
+	for _, en := range m.ends[r] {
+		if en.idx <= last.idx || en.idx >= i {
+			continue
+		}
+		intime := true
+		for _, a := range m.acqs[r] {
+			if a.idx > en.idx {
+				continue
+			}
+			for _, p := range m.k.chain(a.q) {
+				if ft, ok := m.firstEverTouch(r, p); ok && en.t >= ft+m.k.Rows[p].TTLSec*sec {
+					intime = false
+				}
+			}
+		}
+		if intime {
+			return true, "ended"
 		}
 	}
 	if !(last.allowed && last.verdict == 1) {
@@ -210,6 +253,9 @@ func runMonitor(k *Cfg, log []LogEntry, counts [][]int64) []monHit {
 		switch e.Kind {
 		case "gc":
 			m.gcs[e.Q] = append(m.gcs[e.Q], gcTick{i, e.T})
+		case "end":
+			m.note(e.Op.R)
+			m.ends[e.Op.R] = append(m.ends[e.Op.R], endRec{i, e.T, e.How})
 		case "op":
 			r := e.Op.R
 			m.note(r)
@@ -252,7 +298,7 @@ func runMonitor(k *Cfg, log []LogEntry, counts [][]int64) []monHit {
 						if e.Probe {
 							who = "fresh probe"
 						}
-						add(sig, fmt.Sprintf("%s of transaction %d on %s is admitted: every slot on its chain was given back (response / early answer / proxy error) or expired before a GC pass", who, r, qid(e.Op.Q)),
+						add(sig, fmt.Sprintf("%s of transaction %d on %s is admitted: every slot on its chain was given back (response processed / answered early / proxy error) or expired before a GC pass", who, r, qid(e.Op.Q)),
 							fmt.Sprintf("refused at t=%d ns (log entry %d);%s", e.T, i, detail))
 					}
 				}
@@ -277,7 +323,7 @@ func runMonitor(k *Cfg, log []LogEntry, counts [][]int64) []monHit {
 					if g {
 						sig = "counter:slot-kept-after-expiry-gc"
 					}
-					add(sig, fmt.Sprintf("slot count of %s <= %d, the number of transactions that can still hold a slot (not released, not expired-and-collected)", qid(x), ph),
+					add(sig, fmt.Sprintf("slot count of %s <= %d, the number of transactions that can still hold a slot (not ended by the gateway, not released, not expired-and-collected)", qid(x), ph),
 						fmt.Sprintf("%d after log entry %d (t=%d ns)", n, i, e.T))
 				}
 			}
